@@ -173,7 +173,6 @@ Definition events_of (c : cop) : list event :=
   | CS | CW => []
   end.
 
-Definition renders (m : msg) : bool := match render m with Ok _ => true | _ => false end.
 
 (* (a) the step-by-step model of the Go code *)
 Definition model_op (cap : nat) (s : store) (c : cop) : store * list string :=
@@ -198,7 +197,6 @@ Definition model_obs (cap : nat) (cs : list cop) : string := unwords (model_ops 
 
 (* (b) the specification: the store is the last cap rendered arrivals since the last reset;
    queries answer from that window *)
-Definition entry_list (m : msg) : list string := match render m with Ok e => [e] | _ => [] end.
 (* = arrivals (events_of c) acc, computed with one append per op (Proofs/Store_lemmas.v spec_acc_arrivals) *)
 Definition spec_acc (c : cop) (acc : list string) : list string :=
   match c with
